@@ -170,6 +170,23 @@ where
         r2.push(CL03Message::new(attr_random(&mut st)));
         reject("n+1", ver(&h.proof, &cpk2, pk, &b2, &r2, &hidden, n + 1), "one more (revealed) attribute claimed".into())?;
         reject("n+1", ver(&h.proof, &h.cpk, pk, &h.bases, &h.revealed, &hidden, n + 1), "n + 1 with the same lists".into())?;
+        // the verifier's key material has spare entries (an issuer that published more bases than this credential
+        // uses) and the revealed list is the true one: a count above n must still be refused
+        reject("n+1", ver(&h.proof, &cpk2, pk, &b2, &h.revealed, &hidden, n + 1), "n + 1 with spare bases and the true revealed list".into())?;
+        {
+            let mut b3 = b2.clone();
+            b3.0.extend(Bases::generate(pk, 2).0);
+            let mut k3 = cpk2.clone();
+            k3.g_bases.extend(CL03CommitmentPublicKey::generate::<CS>(Some(pk.N.clone()), Some(2)).g_bases);
+            reject("n+1", ver(&h.proof, &k3, pk, &b3, &h.revealed, &hidden, n + 3), "n + 3 with spare bases and the true revealed list".into())?;
+            // with spare key material and the true count the proof is still the honest one
+            rep.eval(ck, 1);
+            if !ver(&h.proof, &k3, pk, &b3, &h.revealed, &hidden, n) {
+                rep.class("spare-bases-not-accepted-by-verifier");
+            } else {
+                rep.class("spare-bases-accepted-by-verifier");
+            }
+        }
         if n >= 2 {
             let last_hidden = hidden.contains(&(n - 1));
             let r3: Vec<CL03Message> = if last_hidden { h.revealed.clone() } else { h.revealed[..h.revealed.len() - 1].to_vec() };
@@ -312,7 +329,7 @@ pub fn run(ctx: &Ctx, rep: &Report) -> Meta {
     Meta {
         rule: "signer key from a pool, n attributes, EVERY hidden set (none ... all) for n = 1..3 (quick) / 1..5 (thorough) plus generated cases, signatures issued directly and through blind issuance, commitment key over the issuer modulus; \
                positive: proof_verify true with the revealed attributes in index order, proof survives JSON; negative: every revealed attribute changed, swaps, other signer key (also b or c alone changed), other bases, other commitment key, \
-               another hidden set of the same size, n+1 / n-1, range_proof_e replaced by an honest range proof for another commitment, every composite node of the serialised proof replaced by the node at the same path of a second honest proof for other hidden values (same key, bases, commitment key, positions; every second case), and integer leaves of the serialised proof perturbed by +1, -1, := 0, := sibling, one high bit flipped, +2^k for k in {128, 160, 256, 300} \
+               another hidden set of the same size, n+1 / n-1 (also n+1 and n+3 against key material with spare bases and the true revealed list), range_proof_e replaced by an honest range proof for another commitment, every composite node of the serialised proof replaced by the node at the same path of a second honest proof for other hidden values (same key, bases, commitment key, positions; every second case), and integer leaves of the serialised proof perturbed by +1, -1, := 0, := sibling, one high bit flipped, +2^k for k in {128, 160, 256, 300} \
                (24-40 sampled perturbations per proof in quick, every leaf in thorough's fixed list); hidden-position list extended by positions >= n (appended, prepended) and by a revealed position, an honest range proof for another value transplanted onto Ce, n = 6 and 8; a refusal by panic counts as not verifying; non-trivial = (n, U) != (3, {0}); evaluations = verifier decisions"
             .into(),
         assumptions: vec!["CL2048/CL3072 in thorough only (fixture primes)".into()],
